@@ -139,10 +139,12 @@ def _fp_add():
     # source have the same fingerprint
     tree, _ = parse('add_gradients.py')
     fn = strip_doc(func(tree, 'add_gradients'))
-    for n in ast.walk(fn):
-        if isinstance(n, ast.Call) and unparse(n.func) in ('make_trapezoid', 'make_extended_trapezoid',
-                                                           'make_arbitrary_grad'):
-            n.keywords = [k for k in n.keywords if k.arg not in ('max_grad', 'max_slew')]
+    nodes = fn if isinstance(fn, list) else [fn]
+    for top in nodes:
+        for n in ast.walk(top):
+            if isinstance(n, ast.Call) and unparse(n.func) in ('make_trapezoid', 'make_extended_trapezoid',
+                                                               'make_arbitrary_grad'):
+                n.keywords = [k for k in n.keywords if k.arg not in ('max_grad', 'max_slew')]
     return fn
 
 
